@@ -95,6 +95,7 @@ class Sched:
 
     def run(self, tids=("P", "C")) -> str:
         t = 0
+        streak = (None, 0)   # (thread, consecutive polling ops): weak fairness for timed waits
         while True:
             with self.cv:
                 deadline = time.time() + HANG_TIMEOUT
@@ -115,6 +116,14 @@ class Sched:
                     return "too-long"
                 want = self.schedule[t % len(self.schedule)] if self.schedule else "P"
                 pick = want if want in en else en[0]
+                # A timed/non-blocking put/get or a liveness poll (none in the pinned code) stands for
+                # a bounded wait that expired; repeating it forever while the other thread could move
+                # would be an unfair schedule, so after 3 in a row the other thread gets one step.
+                if streak[0] == pick and streak[1] >= 3 and len(en) > 1:
+                    pick = [x for x in en if x != pick][0]
+                op = self.pending[pick][0]
+                polling = op.endswith("!") or op == "alive?"
+                streak = (pick, streak[1] + 1 if streak[0] == pick else 1) if polling else (None, 0)
                 self.steps.append(["".join(en), pick, self.pending[pick][0]])
                 self.granted = pick
                 self.cv.notify_all()
@@ -319,7 +328,7 @@ def run_impl(case) -> dict:
         rd = E["LabelsReader"](labels, q, inst_key)
     rd.daemon = True
     stat = {"p": "not-started", "c": "running"}
-    orig_run, orig_join = rd.run, rd.join
+    orig_run, orig_join, orig_alive = rd.run, rd.join, rd.is_alive
 
     def run_wrapped():
         stat["p"] = "running"
@@ -337,8 +346,15 @@ def run_impl(case) -> dict:
         s.park("C", "join", lambda: "P" in s.finished)
         orig_join(HANG_TIMEOUT)
 
+    def alive_wrapped():
+        # not called by the pinned code; any liveness test the consumer makes on the reader
+        # thread is a point where the other thread may run first
+        s.park("C", "alive?", lambda: True)
+        return "P" not in s.finished
+
     rd.run = run_wrapped
     rd.join = join_wrapped
+    rd.is_alive = alive_wrapped
     rec = E["Rec"](s)
     pred = E["MiniPredictor"](
         preprocess=False,
@@ -377,7 +393,7 @@ def run_impl(case) -> dict:
         "rec": rec.batches,
         "taken": list(q.taken),
         "p": stat["p"], "c": stat["c"],
-        "p_alive": rd.is_alive(), "c_alive": ct.is_alive(),
+        "p_alive": orig_alive(), "c_alive": ct.is_alive(),
         "qsize": q.qsize(),
         "eff": "".join(t for _, t, _ in s.steps),
     }
